@@ -4,7 +4,7 @@
    referenced declared schema precedes its user, for every iteration order. *)
 From Coq Require Import String Ascii.
 From Coq Require Import List Arith Lia Bool.
-Require Import TT.Model.Base TT.Model.Str TT.Model.C07TypeParse TT.Model.Harvest TT.Model.C07Worklist TT.Model.C07Reach TT.Model.Topo.
+Require Import TT.Model.Base TT.Model.Str TT.Model.C07TypeParse TT.Model.C07Harvest TT.Model.C07Worklist TT.Model.C07Reach TT.Model.Topo.
 Require Import TT.Spec.C07Spec TT.Spec.C09Spec.
 Require Import TT.Proofs.TopoProofs TT.Proofs.C20Extra TT.Proofs.WorklistSpike TT.Proofs.C07Proofs TT.Proofs.C07Concrete.
 Import ListNotations.
@@ -63,6 +63,21 @@ Proof. intros Hnd s k l. unfold o_obs. split.
     + simpl. split; [intros [[_ H]|[H _]]; auto|intros H; right; auto].
 Qed.
 
+Lemma insert_in x l y : In y (insert_str x l) <-> y = x \/ In y l.
+Proof. induction l as [|a l IH]; simpl; [intuition|]. destruct (str_leb x a); simpl; [intuition|]. rewrite IH. intuition. Qed.
+Lemma insert_nodup x l : NoDup l -> ~ In x l -> NoDup (insert_str x l).
+Proof. induction l as [|a l IH]; simpl; intros Hnd Hx; [constructor; auto|]. destruct (str_leb x a); [constructor; auto|].
+  inversion Hnd; subst. constructor.
+  - rewrite insert_in. intros [->|H]; [apply Hx; left; auto|contradiction].
+  - apply IH; auto. Qed.
+Lemma sort_in l y : In y (sort_str l) <-> In y l.
+Proof. induction l as [|a l IH]; simpl; [tauto|]. rewrite insert_in, IH. intuition. Qed.
+Lemma sort_nodup l : NoDup l -> NoDup (sort_str l).
+Proof. induction l as [|a l IH]; simpl; intros H; [constructor|]. inversion H; subst. apply insert_nodup; auto.
+  rewrite sort_in. auto. Qed.
+Lemma ord_ok_sorted : ord_ok o_sorted.
+Proof. intros s k l. unfold o_sorted, dedup. split; [apply sort_nodup, NoDup_nodup|]. intros x. rewrite sort_in. apply nodup_In. Qed.
+
 Section Order.
 Variable o : orders.
 Hypothesis Ho : ord_ok o.
@@ -72,12 +87,14 @@ Lemma declared_sub disc decl : discovered o p = Some disc -> C07Reach.declared o
   forall x, In x decl -> In x disc /\ resolvable p x = true.
 Proof.
   intros Hd Hdecl. unfold C07Reach.declared in Hdecl. rewrite Hd in Hdecl.
-  destruct (used_types o p disc) as [used|]; [|discriminate]. inversion Hdecl; subst decl; clear Hdecl.
+  destruct (used_types o p disc) as [used|]; [|discriminate].
+  destruct (mapM (event_closure o p disc) (events p)) as [closures|]; [|discriminate].
+  inversion Hdecl; subst decl; clear Hdecl.
   unfold discovered in Hd.
   destruct (work_exact str str_dec _ _ _ (resolvable_indexed p) _ _ _ Hd) as [Hnd Hin].
   destruct (Ho S_STRUCTS [] disc) as [Hpnd Hpin].
   assert (Hb : NoDup (filter (fun n => smemb n used) (o S_STRUCTS [] disc))) by (apply NoDup_filter; auto).
-  destruct (add_events_spec str str_dec disc (map (fun e => o S_EVENT e (ts_of e)) (events p)) _ Hb) as [_ Hin'].
+  destruct (add_events_spec str str_dec disc closures _ Hb) as [_ Hin'].
   intros x Hx. apply Hin' in Hx.
   assert (Hxd : In x disc).
   { destruct Hx as [Hx|[Hx _]]; auto. apply filter_In in Hx as [Hx _]. apply Hpin; auto. }
